@@ -85,13 +85,13 @@ def run(ctx: core.Ctx):
     total = 0
     worst = 0.0
     persistent = {}
-    for palette in ("dyadic", "decimal"):
+    for palette in ("dyadic", "decimal", "narrow"):
         kinds = "{" + ", ".join(f'"{k}"' for k in KINDS) + "}"
         head = f'SPECIFICATION Spec\nCONSTANTS Palette = "{palette}"\n  Kinds = {kinds}\n'
-        cfg = write_cfg(f"MC_Terms_{palette}", head + "  Emit = TRUE\n" + "".join(f"INVARIANT {i}\n" for i in INVS) + "INVARIANT EmitInv\nCHECK_DEADLOCK FALSE\n")
+        cfg = write_cfg(f"MC_Terms_{palette}", head + "  Emit = TRUE\n" + "".join(f"INVARIANT {i}\n" for i in (INVS if palette != "narrow" else [])) + "INVARIANT EmitInv\nCHECK_DEADLOCK FALSE\n")
         g = ctx.tlc("MC_Terms", cfg, workers=16, timeout=2400)
         ctx.expect_holds(g, f"MC_Terms[{palette}]")
-        if len(g.emitted) < 10000:
+        if len(g.emitted) < (10000 if palette != "narrow" else 3000):
             raise MachineryError(f"only {len(g.emitted)} term cases emitted")
         # group by term instance
         groups = {}
